@@ -3,7 +3,7 @@ import regen
 
 THEOREMS = {
     "Dawgs.Props.C08": [
-        "Dawgs.C08.Props.context_protocol_as_modelled", "Dawgs.C08.Props.error_reporting_as_modelled", "Dawgs.C08.Props.table_shape", "Dawgs.C08.Props.table_balanced",
+        "Dawgs.C08.Props.context_protocol_as_modelled", "Dawgs.C08.Props.error_reporting_as_modelled", "Dawgs.C08.Props.accessor_chains_guarded", "Dawgs.C08.Props.table_shape", "Dawgs.C08.Props.table_balanced",
         "Dawgs.C08.Props.filters_inert", "Dawgs.C08.Props.listener_no_panic", "Dawgs.C08.Props.listener_no_panic_derivable",
         "Dawgs.C08.Props.listener_no_panic_recovered_partial", "Dawgs.C08.Props.listener_linear", "Dawgs.C08.Props.current_part_as_modelled", "Dawgs.C08.Props.parts_table_safe", "Dawgs.C08.Props.multipart_index_in_range",
         "Dawgs.C08.Props.never_nilnil_partial", "Dawgs.C08.Props.root_chain_ok", "Dawgs.C08.Props.never_nilnil",
@@ -88,6 +88,8 @@ def judge(op, impl, model):
             return "reject nilnil %s %s" % (tag, _field(model or "", "qkind") or "?")
         if c.startswith("ok/1"):
             return "reject nil-model-accepted %s" % tag
+    if (_field(impl, "render") or "").startswith("panic"):
+        return "reject render-panics accepted-model-cannot-be-rendered %s inc=%s" % ((_field(impl, "render") or "")[:120], _field(impl, "inc"))
     for tag, c in (("NewContext", n), ("DefaultCypherContext", d)):
         if c.startswith("partial"):
             return "reject partial %s %s inc=%s" % (tag, _field(model or "", "empty") or "[]", _field(impl, "inc"))
@@ -148,14 +150,14 @@ SPEC = {
     "nontrivial": nontrivial,
     "finding_key": finding_key,
     "panic_is_violation": False,   # panics are judged by the monitor (key C08:ParseCypher:panic), not twice
-    "rule": "cases = stray characters (every character the lexer has no rule for, attached to token positions of corpus queries and alone) + numeric literals over the whole double range and around ±2^63 in every literal position + multi-byte / invalid-UTF-8 payloads of 20–200 bytes (more than 64 bytes with fewer than 64 runes included) inside EVERY unsupported construct (rule list read from cypher/frontend at generation time; a rule without a live template is counted in gen.unsupported_rules_without_template) and inside the other error paths (range mini-parser, operator scan, literal errors, filters) + multi-part queries whose parts open with every kind of updating clause (first/middle/last part, with and without reading clauses, closed by WITH/RETURN/nothing) + fixed hostile inputs (empty/whitespace incl. grammar-only whitespace, out-of-range numerals, unterminated strings/comments, "
+    "rule": "cases = empty maps / lists / strings (alone and nested) in EVERY expression position of every clause kind (literal positions, ORDER BY lists, SKIP / LIMIT, WITH … WHERE, UNWIND, comprehensions, CASE, pattern properties, SET = / +=) + dangling sigils (`$`, `$1.5`, `$'x'`, `:`, `.`), operators without an operand, openers without a closer and reserved words as names in the same positions + stray characters (every character the lexer has no rule for, attached to token positions of corpus queries and alone) + numeric literals over the whole double range and around ±2^63 in every literal position + multi-byte / invalid-UTF-8 payloads of 20–200 bytes (more than 64 bytes with fewer than 64 runes included) inside EVERY unsupported construct (rule list read from cypher/frontend at generation time; a rule without a live template is counted in gen.unsupported_rules_without_template) and inside the other error paths (range mini-parser, operator scan, literal errors, filters) + multi-part queries whose parts open with every kind of updating clause (first/middle/last part, with and without reading clauses, closed by WITH/RETURN/nothing) + fixed hostile inputs (empty/whitespace incl. grammar-only whitespace, out-of-range numerals, unterminated strings/comments, "
             "every F6/F7 construct) + truncations of every repository corpus query (every offset thorough; seeded stride quick) + one-delimiter "
             "deletions/duplications/swaps + nesting families (parens, lists, NOT, AND, +, relationship chains, maps) at depths 1..64 (200 thorough) "
             "+ invalid UTF-8 / odd code points spliced at random offsets + literals of 1 KiB..16 KiB (128 KiB thorough) + token soups from the "
             "grammar's keywords + 10 size-doubling sweeps (time/alloc exponent fitted; timing never compared with the model); every input parsed under "
             "recover with NewContext() and DefaultCypherContext() and once more with a probe filter recording the visitor stack at every rule entry; "
             "non-trivial = a parse tree was built and the input had a syntax error, an unsupported rule, or was accepted; distinct = distinct inputs",
-    "expected_branches": ["n.ok", "n.err", "d.ok", "d.err", "invalid_utf8", "blank_inputs", "scale_ok", "gen.stray", "gen.num", "gen.payload", "gen.stray_character_classes"],
+    "expected_branches": ["n.ok", "n.err", "d.ok", "d.err", "invalid_utf8", "blank_inputs", "scale_ok", "gen.stray", "gen.num", "gen.payload", "gen.stray_character_classes", "gen.empty", "gen.dangling"],
     "trusted_base": ["ANTLR 4 runtime + generated lexer/parser (termination and cost of ALL(*) prediction are measured, not proved)",
                      "tools/extract/goext mode visitors (push/pop/guard table, Context protocol source) and grammar.py",
                      "antlr.ParseTreeWalker calls EnterEveryRule / children / ExitEveryRule in that order (ANTLR)",
@@ -165,7 +167,7 @@ SPEC = {
                     "method bodies that depend on visitor fields (nil dereference, assertions on model values) are not in the Lean model and are searched by the fuzz corpus only",
                     "never_nilnil is proved for the repaired listener (unsupported-rule errors for oC_StandaloneCall/oC_LoadCSV/oC_InQueryCall, hooks/C07-fix.patch) relative to the "
                     "filter/unsupported-rule error model; the refutation is kept as a theorem about the older table (never_nilnil_refuted_old)"],
-    "explanation": "Outcome model: the model is given the number of recognition errors the RAW ANTLR run reports to a listener of the harness, not what the context recorded; by error_reporting_as_modelled (source text of parseCypher / Context.SyntaxError / AddErrors / newUnsupportedRuleError, kernel-compared) every report is one recorded error, so lexer error ⇒ err; the monitor also requires recorded = reported. Lean: for every rule-labelled tree (any shape, error nodes included) the listener protocol (Context.Enter/Exit, depth counters, type-asserted pops) "
+    "explanation": "Completeness oracle on accepted parses: a reflection walk of the returned model reports missing mandatory fields, empty mandatory lists, typed nils in interface slots, nil list elements and nil map values (class `partial`), and the model must render (format.RegularQuery may fail, it must not panic). accessor_chains_guarded: the extractor lists every `<ctx>.A().M()` of cypher/frontend where A is a single-child accessor of a generated rule context (nil when the child is absent, e.g. in a tree built by error recovery); the list must be empty. Outcome model: the model is given the number of recognition errors the RAW ANTLR run reports to a listener of the harness, not what the context recorded; by error_reporting_as_modelled (source text of parseCypher / Context.SyntaxError / AddErrors / newUnsupportedRuleError, kernel-compared) every report is one recorded error, so lexer error ⇒ err; the monitor also requires recorded = reported. Lean: for every rule-labelled tree (any shape, error nodes included) the listener protocol (Context.Enter/Exit, depth counters, type-asserted pops) "
                    "never panics and restores the stack, provided every visitor method pair is balanced — a decidable condition on the table extracted from "
                    "cypher/frontend/*.go, closed by decide +kernel; listener work <= (filters+4) per node; blank input rejected; (nil,nil) refuted by the CALL witness. "
                    "Tie: outcome class, nil-ness, unsupported/filter error multiset and an FNV trace of the visitor stack at every rule entry are compared between the "
